@@ -90,7 +90,8 @@ impl LangInterpreter for Spanish {
             "cien" | "ciento" | "cienta" | "centésimo" | "centésima" | "centavo" => b.put(b"100"),
             "dosciento" | "doscienta" | "ducentésimo" | "ducentésima" => b.put(b"200"),
             "tresciento" | "trescienta" | "tricentésimo" | "tricentésima" => b.put(b"300"),
-            "cuatrociento" | "cuatrocienta" | "quadringentésimo" | "quadringentésima" => {
+            "cuatrociento" | "cuatrocienta" | "cuadringentésimo" | "cuadringentésima"
+            | "quadringentésimo" | "quadringentésima" => {
                 b.put(b"400")
             }
             "quiniento" | "quinienta" | "quingentésimo" | "quingentésima" => b.put(b"500"),
